@@ -714,7 +714,24 @@ pub fn run_zoned(a: &Args, which: &str) {
                     out.emit(zone_slot(az2, &src2.class, 2));
                 }
                 for &(ts, cls) in &insts {
-                    c11_for_ref(&mut out, &mut rng, &Ref::Z(Zoned::new(ts, tz.clone())), if quick { 3 } else { 4 }, cls);
+                    let zr = Ref::Z(Zoned::new(ts, tz.clone()));
+                    c11_for_ref(&mut out, &mut rng, &zr, if quick { 3 } else { 4 }, cls);
+                    // a time part that rounds up to (or past) the length of its day, on days that a transition
+                    // made longer or shorter: the part beyond the day has to be rounded again from the next day
+                    if cls == "near-transition" {
+                        for (d, h, mi) in [(0i64, 23i64, 40i64), (0, 24, 20), (1, 23, 50), (0, 22, 45)] {
+                            for neg in [false, true] {
+                                let mut u = [0i64; 10];
+                                u[3] = d;
+                                u[4] = h;
+                                u[5] = mi;
+                                let s = mkspan(u, neg).unwrap();
+                                for (inc, mi) in [(1i64, 2usize), (1, 6), (2, 0)] {
+                                    out.emit(sp_round(&zr, s, 5, 6, inc, mi, "day-length"));
+                                }
+                            }
+                        }
+                    }
                 }
             }
             "c10z" => {
